@@ -4,17 +4,21 @@ import time
 
 from harness import comp_history as H
 from harness import run_history as R
+from translate import history as TH
 from vlib import core
 
-PROPS = ["Props/C19.v", "Props/C19run.v", "Props/C05final.v"]
-TRANSLATORS = ["final"]
+PROPS = ["Props/C19.v", "Props/C19run.v", "Props/C05final.v", "Props/C19src.v"]
+TRANSLATORS = ["final", "history"]
 THEOREMS = ["C19_reachable_wf", "C19_record_get", "C19_frame", "C19_grow_padding", "C19_errors_preserve_state",
             "C19_setitem", "C19_no_alias", "C19_env_mutation_invisible", "C19_last_record_wins",
             "C19_unrecorded_is_blank", "C19_record_iteration", "C19_result_keys", "C19_result_copies",
             "C19_result_fields_readable", "C19_status_unset_refuted_before_fix",
             "C19_rows_are_evaluated_pairs", "C19_func_count_nondecreasing", "C19_result_is_last_row", "C19_noisy_result_is_a_row",
             # Props/C05final.v: which attribute goes to which key of the result / which history row is returned, regenerated from the source
-            "C19_result_fields_are_source", "C05_returned_iterate_is_one_history_row"]
+            "C19_result_fields_are_source", "C05_returned_iterate_is_one_history_row",
+            # Props/C19src.v: the containers regenerated from iteration_history.py / optimize_result.py (translate/history.py)
+            "C19_record_is_source", "C19_history_setitem_is_source", "C19_history_step_is_source", "C19_history_init_is_source",
+            "C19_result_setitem_is_source", "C19_result_step_is_source"]
 LEVEL = "proof"
 RULE = ("(a) op sequences on the real IterationHistory / OptimizeResult from one PRNG: known, unknown and deleted keys; "
         "iterations negative / in range / at the end / with a gap / far beyond the end; values int, float, str, numpy scalar, "
@@ -28,6 +32,10 @@ RULE = ("(a) op sequences on the real IterationHistory / OptimizeResult from one
 TRUSTED = [
     "Coq 8.16.1 kernel + vm_compute (case evaluation); no native_compute",
     "hand-written model Model/History.v of iteration_history.py and optimize_result.py (containers only), tied by per-op differential comparison (harness/comp_history.py, Model/HistoryTie.v)",
+    "Model/History.v's step / init_history / rstep are PROVED equal, for all states and arguments, to the method bodies regenerated from iteration_history.py / optimize_result.py "
+    "(Props/C19src.v); translate/history.py (fail-closed ast whitelist; method set, delegation of __getitem__ / __delitem__ / __len__ / __iter__ to dict and OptimizeResult.__init__ pinned; "
+    "census of check_keys / _keys / _expand_array over the package) is validated on every run: the GENERATED programs are evaluated by Coq (vm_compute) on every op sequence of the tie, "
+    "against the real containers; Model/HistorySrc.v: the meaning of the program language (exec, run_lstmts, step_gen, rstep_gen)",
     "copy.deepcopy, numpy object arrays (np.full, np.append, item assignment), dict and MutableMapping are modelled, not verified: deepcopy = fresh identity for every mutable object, memo-shared inside one call, immutable objects returned as they are",
     "values are atomic in the model (content + identity); the harness checks deep copies behaviourally by changing the innermost containers of every source in place",
     "what the loop records (which points, which values) is NOT decided by the container theorems: run-level clauses are decided by the skeleton theorems added by the lead and, here, checked on real runs by harness/run_history.py (monitor)",
@@ -46,6 +54,31 @@ ASSUMPTIONS = [
 
 def _history_nontrivial(ops):
     return any(o["op"] in ("mutate_src", "mutate_at", "record_from") or (o["op"] == "record" and o["i"] != 0) for o in ops)
+
+
+def tie_source(ctx, broken, name, tag, case_ty, ok_fun, cases, bad_model, describe, first_bad, shard):
+    """translator validation: the programs GENERATED from the source, evaluated by Coq on the same literals as the hand-written model"""
+    ob = "correspondence:" + name
+    if not TH.generated_ok():
+        ctx.oblige(ob, "correspondence", False, "no generated program: " + str(TH.LAST.get("error"))[:300])
+        broken.append((ob, "coq/gen/Src_history.v holds no definition (the source is not translatable): " + str(TH.LAST.get("error"))[:300]))
+        return
+    okc, bad, log = core.run_cases(tag, H.SRC_REQUIRES, case_ty, ok_fun, cases, shard=shard)
+    ctx.coverage[name + "_cases"] = len(cases)
+    if ctx.oblige(ob, "correspondence", okc and not bad,
+                  f"{len(bad)} of {len(cases)} op sequences differ from the programs generated from the source; " + log[-400:]):
+        return
+    if not okc:
+        broken.append((ob, "the generated programs could not be evaluated: " + log[-400:]))
+        return
+    i = bad[0]
+    where = core.coq_show(tag + "_where", H.SRC_REQUIRES, f"{first_bad} {cases[i]}")
+    if bad_model is not None and i not in bad_model:
+        what = "TRANSLATOR fault: the hand-written model agrees with the real container, the generated program does not"
+    else:
+        what = "the source has changed: the generated program and the hand-written model both differ from the real container" if bad_model else \
+               "the generated program differs from the real container"
+    broken.append((ob, f"{what} (sequence {i}, first differing op {where}): {describe(i)}"))
 
 
 def tie_history(ctx, broken, n):
@@ -72,6 +105,8 @@ def tie_history(ctx, broken, n):
     okc, bad, log = core.run_cases("C19h", H.REQUIRES, H.HIST_CASE_TY, H.HIST_OK, cases, shard=max(20, n // 12))
     good = ctx.oblige("correspondence:iteration_history", "correspondence", okc and not bad,
                       f"{len(bad)} of {len(cases)} op sequences differ from the model; " + log[-400:])
+    tie_source(ctx, broken, "history_source", "C19hs", H.HIST_CASE_TY, H.HIST_OK_SRC, cases, bad if okc else None,
+               lambda i: f"keys={seqs[i][0]} ops={seqs[i][1][:14]}", "history_first_bad_gen src_history", max(20, n // 12))
     # the monitor ran on every sequence
     for keys, ops, run in seqs:
         if run["viol"]:
@@ -112,6 +147,8 @@ def tie_result(ctx, broken, n):
     okc, bad, log = core.run_cases("C19r", H.REQUIRES, H.RES_CASE_TY, H.RES_OK, cases, shard=max(20, n // 12))
     good = ctx.oblige("correspondence:optimize_result", "correspondence", okc and not bad,
                       f"{len(bad)} of {len(cases)} op sequences differ from the model; " + log[-400:])
+    tie_source(ctx, broken, "result_source", "C19rs", H.RES_CASE_TY, H.RES_OK_SRC, cases, bad if okc else None,
+               lambda i: f"ops={seqs[i][0][:14]}", "result_first_bad_gen src_result", max(20, n // 12))
     for ops, run in seqs:
         if run["viol"]:
             small = H.shrink(ops, lambda c: bool(H.run_result([dict(o) for o in c])["viol"]))
@@ -231,6 +268,17 @@ def search(ctx, broken):
     from harness import comp_final as F
     if F.search_final(ctx, broken, [], c19=True):
         return True
+    tags = TH.regions_to_search()
+    if tags or any(n.startswith(("translate:history", "correspondence:history_source", "correspondence:result_source", "coq_build")) for n, _ in broken):
+        ctx.coverage["aimed_search"] = tags or ["any"]
+        for i in range(3000):
+            keys, ops = H.gen_aimed_history(ctx.rng, i, tags or ["any"])
+            run = H.run_history(keys, ops)
+            if run["viol"]:
+                small = H.shrink(ops, lambda c: bool(H.run_history(keys, [dict(o) for o in c])["viol"]))
+                v = H.run_history(keys, [dict(o) for o in small])["viol"] or run["viol"]
+                ctx.violate(v[0][0], f"IterationHistory: {v[0][1]} (aimed at {tags or ['any']})", dict(kind="history_sequence", keys=keys, ops=small))
+                return True
     for i in range(4000):
         keys, ops = H.gen_history_sequence(ctx.rng, i)
         run = H.run_history(keys, ops)
